@@ -500,6 +500,15 @@ def corpus():
             pb = genb.rnd_bundle(rng, nblocks=1, crc_kind=rng.choice([0, 1, 2]))
             pb["cs"][-1]["data"] = ("DATA", head + bytes((7 * i + 11) % 251 + 1 if (7 * i + 11) % 251 + 1 != 10 else 11 for i in range(tail)))
             out.append(decode_case(rng, pb, "stdin-p" if tail > 30000 else rng.choice(["hex-p", "stdin-p"])))
+    # the payload block is not the last block on the wire (a bundle from Bundle::new without sorting, or from a peer): -p still prints it
+    for n, pos in ((1, 0), (3, 0), (3, 1), (3, 2), (6, 2)):
+        for ck in (0, 1, 2):
+            pb = genb.rnd_bundle(rng, nblocks=n, crc_kind=ck)
+            pay = pb["cs"].pop()
+            pay["data"] = ("DATA", b"payload at position %d of %d\n" % (pos, n + 1))
+            pb["cs"].insert(pos, pay)
+            out.append(decode_case(rng, pb, "hex-p"))
+            out.append(decode_case(rng, pb, "stdin-p"))
     # a bundle without payload block: -p prints nothing
     nb = genb.rnd_bundle(rng, nblocks=2)
     nb["cs"] = nb["cs"][:-1]
